@@ -264,6 +264,7 @@ def visit_one(ex, obj, cc, x, line):
     S = ex.S
     t = ex.to_py(x)
     env = dict(ex.closure_env)
+    env.update(getattr(obj, "closure_env", None) or {})
     env.update({"node": Z(t), "self": obj, "__old__": {"self": snapshot(obj), "node": Z(t)}})
     for i, r in enumerate(cc.get("visit_requires", [])):
         ex.oblige("pre", f"visit:requires[{i}]", ex.to_bool(eval_spec_expr(ex, r, env)), line,
@@ -299,6 +300,7 @@ def visit_list(ex, obj, cc, seq, line):
     if "visit_fn" not in cc or cc.get("visit_effects"):
         raise Unsupported("comprehension of self.visit for a non-functional/stateful visitor")
     env = dict(ex.closure_env)
+    env.update(getattr(obj, "closure_env", None) or {})
     env.update({"node": Z(ex.P.PNone), "self": obj, "__old__": {"self": obj}})
     sf = ex.w.specs[cc["visit_fn"]]
     extra = []
@@ -325,6 +327,7 @@ def generic_visit(ex, obj, cc, x, line):
     S = ex.S
     t = ex.to_py(x)
     env = dict(ex.closure_env)
+    env.update(getattr(obj, "closure_env", None) or {})
     env.update({"node": Z(t), "self": obj, "__old__": {"self": snapshot(obj), "node": Z(t)}})
     base = cc.get("base")
     if cc.get("generic_requires") is not None:
